@@ -142,8 +142,24 @@ EditsOf(kind) ==
     [] kind = "AddConsistentObs" -> {[k |-> "AddConsistentObs", s |-> s] : s \in 1..3}
     [] kind = "ReplaceCovByStdev" -> {[k |-> "ReplaceCovByStdev"]}
     [] kind = "AttachHeights" -> {[k |-> "AttachHeights", s |-> s] : s \in 1..2}
+    [] kind = "MakeFree" -> {[k |-> "MakeFree", s |-> s] : s \in 1..6}
+    [] kind = "Isolate" -> {[k |-> "Isolate", s |-> s] : s \in 1..2}
     [] kind = "ExcludeVsDelete" -> {[k |-> "ExcludeVsDelete", s |-> s] : s \in 1..3}
     [] OTHER -> {}
+
+(* ---- ill-posed networks (C20): MakeFree(s) turns every fixed point into an unknown one and
+   constrains  s=1: nothing, s=2: the first point, s=3: the first two points, s=4: all points,
+   s=5 (3-D): only the heights of all points, s=6 (3-D): only x,y of the first two points.
+   Datum defect of the templates: 2-D with distances and directions 3 (2 with an azimuth), 3-D one
+   more for the height, levelling 1. The constraint set resolves it iff it has enough coordinates
+   AND spans every datum transformation. *)
+HasAz == \E i \in net.opt : Template(net.t).opt[i].t = "azimuth"
+Defect2D == IF HasAz THEN 2 ELSE 3
+Adjustable(e) ==
+  IF e.k # "MakeFree" THEN TRUE
+  ELSE CASE net.t = "lev1d" -> e.s \in {2, 3, 4}
+         [] Template(net.t).dim = 2 -> e.s \in {3, 4} \/ (e.s = 2 /\ Defect2D = 2)   \* one point spans the two translations
+         [] OTHER -> e.s \in {3, 4}
 
 (* the law of an edit: how the new result relates to the previous one.
    coords : "same" | "shift" | "axes" | "datum" | "truth"
@@ -165,12 +181,16 @@ Law(e) ==
     [] e.k = "ExportReimport" -> [coords |-> "same", obs |-> "same", stats |-> "same", cov |-> "same"]
     [] e.k = "ChangeDatum" -> [coords |-> "datum", obs |-> "same", stats |-> "same", cov |-> "datum"]
     [] e.k = "AddConsistentObs" -> [coords |-> "truth", obs |-> "superset", stats |-> "any", cov |-> "any"]
+    [] e.k = "MakeFree" -> [coords |-> "any", obs |-> "any", stats |-> "any", cov |-> "any", adjustable |-> Adjustable(e)]
+    [] e.k = "Isolate" -> [coords |-> "same", obs |-> "superset", stats |-> "any", cov |-> "any", removed |-> "X"]
     [] e.k = "AttachHeights" -> [coords |-> "same", obs |-> "any", stats |-> "any", cov |-> "any"]
     [] e.k = "ReplaceCovByStdev" -> [coords |-> "same", obs |-> "same", stats |-> "same", cov |-> "same"]
     [] OTHER -> [coords |-> "same", obs |-> "same", stats |-> "same", cov |-> "same"]
 
 (* applicability of an edit to a network *)
 Applicable(e) ==
+  /\ (e.k = "MakeFree" => net.t \in {"tri2d", "trav2d", "polar3d", "lev1d"} /\ (e.s \in {5, 6} => Template(net.t).dim = 3))
+  /\ (e.k = "Isolate" => net.t \in {"tri2d", "dist2d", "polar3d"})
   /\ (e.k = "ChangeDatum" => net.t \in {"free2d"})
   /\ (e.k = "AddConsistentObs" => net.noise = 0)
   /\ (e.k \in {"OmitApprox", "PerturbApprox"} => net.noise = 0 /\ net.t # "free2d")    \* the datum of a free network is defined by its approximate coordinates
